@@ -191,6 +191,13 @@ static int acquire (const char *k, int want_ok, Obj *o) {
 	else if (!strcmp (k, "shm_smaller")) { PShm *s = p_shm_new (name, 9000, P_SHM_ACCESS_READWRITE, NULL), *t = p_shm_new (name, 100, P_SHM_ACCESS_READWRITE, NULL); o->a = s; o->b = t; ok = s && t; }
 	else if (!strcmp (k, "shmbuf")) { PShmBuffer *b = p_shm_buffer_new (name, want_ok ? 1000 : 0, &err), *c = NULL; char buf[8]; if (b) { c = p_shm_buffer_new (name, 1000, NULL); p_shm_buffer_write (b, (ppointer) "abc", 3, NULL); if (c) p_shm_buffer_read (c, buf, 8, NULL); } o->a = b; o->b = c; ok = b != NULL; }
 	else if (!strcmp (k, "thread")) { PUThread *t = p_uthread_create ((PUThreadFunc) thr_fn, NULL, TRUE, NULL); if (t) p_uthread_join (t); o->a = t; ok = t != NULL; }
+	else if (!strcmp (k, "thread_named")) {     /* full creation call with a name: lengths around the system's 16-byte limit */
+		static const int lens[] = { 0, 1, 15, 16, 17, 40, 14, 16, 31, 16 }; char nm[64]; int L = lens[uniq % 10]; PUThread *t;
+		memset (nm, 'n', (size_t) L); nm[L] = 0;
+		t = p_uthread_create_full ((PUThreadFunc) thr_fn, NULL, TRUE, P_UTHREAD_PRIORITY_INHERIT, 0, L ? nm : NULL);
+		if (t) p_uthread_join (t);
+		o->a = t; ok = t != NULL;
+	}
 	else if (!strcmp (k, "thread_detached")) { PUThread *t = p_uthread_create ((PUThreadFunc) thr_fn, NULL, FALSE, NULL); o->a = t; ok = t != NULL; }
 	else if (!strcmp (k, "locks")) { o->a = p_mutex_new (); o->b = p_cond_variable_new (); o->c = p_rwlock_new (); o->aux = (long) p_spinlock_new (); ok = o->a && o->b && o->c && o->aux; }
 	else if (!strcmp (k, "loader")) { PLibraryLoader *l = p_library_loader_new (want_ok ? "/lib/x86_64-linux-gnu/libm.so.6" : "/no/such/lib.so"); pchar *e; if (l) { p_library_loader_get_symbol (l, "cos"); p_library_loader_get_symbol (l, "nope_"); e = p_library_loader_get_last_error (l); p_free (e); } o->a = l; ok = l != NULL; }
@@ -217,7 +224,7 @@ static void release (Obj *o) {
 	else if (!strcmp (k, "shm")) { p_shm_take_ownership (o->a); p_shm_free (o->a); }
 	else if (!strcmp (k, "shm_same") || !strcmp (k, "shm_smaller")) { if (o->b) p_shm_free (o->b); if (o->a) p_shm_free (o->a); }
 	else if (!strcmp (k, "shmbuf")) { if (o->b) p_shm_buffer_free (o->b); if (o->a) { p_shm_buffer_take_ownership (o->a); p_shm_buffer_free (o->a); } }
-	else if (!strcmp (k, "thread") || !strcmp (k, "thread_detached")) p_uthread_unref (o->a);
+	else if (!strcmp (k, "thread") || !strcmp (k, "thread_named") || !strcmp (k, "thread_detached")) p_uthread_unref (o->a);
 	else if (!strcmp (k, "locks")) { p_mutex_free (o->a); p_cond_variable_free (o->b); p_rwlock_free (o->c); p_spinlock_free ((PSpinLock *) o->aux); }
 	else if (!strcmp (k, "loader")) p_library_loader_free (o->a);
 	else if (!strcmp (k, "profiler")) p_time_profiler_free (o->a);
